@@ -43,8 +43,8 @@ func OtherTarget(r *vf.Run) {
 		r.SetExtra("goarch_386", "the harness did not build for GOARCH=386 against this tree: not run there")
 		return
 	}
-	runChildExe(r, exe, "goarch-386", "GOGC=10")
-	r.SetExtra("goarch_386", "whole monitor repeated in a GOARCH=386 build (made with go1.26.8 where installed) with GOGC=10")
+	runChildExe(r, exe, "goarch-386", "GOGC=10", "GOMAXPROCS=12")
+	r.SetExtra("goarch_386", "whole monitor repeated in a GOARCH=386 build (made with go1.26.8 where installed) with GOGC=10 and GOMAXPROCS=12")
 }
 
 func runChildExe(r *vf.Run, exe, label string, env ...string) {
